@@ -104,6 +104,29 @@ def all_str(labels):
     return all(isinstance(x, str) for x in labels)
 
 
+_SIGS = {
+    "follow_word": (("word", None), ("start_vertex", None)),
+    "accepts": (("word", None), ("start_vertex", None)),
+    "initial_accepted_subword": (("word", None),),
+    "initial_rejected_subword": (("word", None),),
+    "enumerate_fixed_length_paths": (("length", None), ("start_vertex", None), ("with_states", False)),
+    "enumerate_words": (("max_length", None), ("start_vertex", None), ("with_states", False)),
+}
+
+
+def args_of(call, op):
+    """argument dict of a monitored FSA method call (positional or keyword),
+    without the cost of inspect.signature on every event."""
+    out = {}
+    pos = call.args[1:]
+    for i, (name, default) in enumerate(_SIGS[op]):
+        if i < len(pos):
+            out[name] = pos[i]
+        else:
+            out[name] = call.kwargs.get(name, default)
+    return out
+
+
 # ---------------------------------------------------------------------------
 # monitors
 
@@ -135,19 +158,19 @@ def setup(run):
         M2, prob2 = fl.snapshot(call.args[0])
         if M2 is None:
             return watch.fail("write-watch/label-view-corrupted/after:%s/route:%s" % (op, route()),
-                              "after %s(%r) the %s" % (op, call.bound().get("word"), prob2),
+                              "after %s(%r) the %s" % (op, args_of(call, op).get("word"), prob2),
                               case_of(call))
         if M2.delta != M.delta or M2.vertices != M.vertices:
             return watch.fail("write-watch/label-view-changed/after:%s/route:%s" % (op, route()),
                               "the query %s(%r) changed the automaton's label view: %r"
-                              % (op, call.bound().get("word"),
+                              % (op, args_of(call, op).get("word"),
                                  sorted(set(M2.delta.items()) ^ set(M.delta.items()), key=repr)[:4]),
                               case_of(call))
         watch.ok()
         return True
 
-    def word_of(call):
-        b = call.bound()
+    def word_of(call, op):
+        b = args_of(call, op)
         try:
             w = tuple(b.get("word"))
         except TypeError:
@@ -160,10 +183,10 @@ def setup(run):
         M, prob = state
         if M is None:
             return walk.skip("label view not an automaton before the call")
-        w = word_of(call)
+        w = word_of(call, "follow_word")
         if w is None:
             return walk.skip("word is not a sequence of hashable labels")
-        s = call.bound().get("start_vertex")
+        s = args_of(call, "follow_word").get("start_vertex")
         if s is None:
             if len(M.starts) != 1:
                 return walk.skip("not exactly one start vertex")
@@ -182,14 +205,13 @@ def setup(run):
                 walk.skip("raised %s" % type(call.exc).__name__)
             return
         if end is None:
-            walk.fail("walk/follows-nonaccepted-word/follow_word/route:%s" % route(),
-                      "follow_word(%r) returned %r for a word that is not accepted from %r"
-                      % (list(w), call.result, s), cs)
-        else:
-            walk.require(fl.hashable(call.result) and call.result == end,
-                         "walk/wrong-end-state/follow_word/route:%s" % route(),
-                         "follow_word(%r) = %r, model end state %r" % (list(w), call.result, end), cs)
-        label_watch(call, M, "follow_word")
+            return walk.fail("walk/follows-nonaccepted-word/follow_word/route:%s" % route(),
+                             "follow_word(%r) returned %r for a word that is not accepted from %r"
+                             % (list(w), call.result, s), cs)
+        if walk.require(fl.hashable(call.result) and call.result == end,
+                        "walk/wrong-end-state/follow_word/route:%s" % route(),
+                        "follow_word(%r) = %r, model end state %r" % (list(w), call.result, end), cs):
+            label_watch(call, M, "follow_word")
 
     def hook_accepts(call, state):
         M, prob = state
@@ -197,25 +219,26 @@ def setup(run):
             return walk.skip("label view not an automaton before the call")
         if call.exc is not None:
             return walk.skip("raised %s" % type(call.exc).__name__)
-        w = word_of(call)
+        w = word_of(call, "accepts")
         if w is None:
             return walk.skip("word is not a sequence of hashable labels")
-        s = call.bound().get("start_vertex")
+        s = args_of(call, "accepts").get("start_vertex")
         starts = [s] if s is not None else list(M.starts)
         if len(starts) != 1 or not fl.hashable(starts[0]) or starts[0] not in M.vertices:
             return walk.skip("not exactly one start vertex that is a vertex")
         exp = M.follow(w, starts[0]) is not None
         cs = case_of(call, {"word": list(w), "start": repr(starts[0])})
         if exp:
-            walk.require(call.result is True or call.result == 1,
-                         "walk/rejects-accepted-word/accepts/route:%s" % route(),
-                         "accepts(%r) = %r for an accepted word" % (list(w), call.result), cs)
+            good = walk.require(call.result is True or call.result == 1,
+                                "walk/rejects-accepted-word/accepts/route:%s" % route(),
+                                "accepts(%r) = %r for an accepted word" % (list(w), call.result), cs)
         else:
-            walk.require(call.result is False or call.result == 0,
-                         "walk/accepts-nonaccepted-word/accepts/route:%s" % route(),
-                         "accepts(%r) = %r for a word that is not accepted from %r"
-                         % (list(w), call.result, starts[0]), cs)
-        label_watch(call, M, "accepts")
+            good = walk.require(call.result is False or call.result == 0,
+                                "walk/accepts-nonaccepted-word/accepts/route:%s" % route(),
+                                "accepts(%r) = %r for a word that is not accepted from %r"
+                                % (list(w), call.result, starts[0]), cs)
+        if good:
+            label_watch(call, M, "accepts")
 
     def hook_prefix(which):
         def hook(call, state):
@@ -224,7 +247,7 @@ def setup(run):
                 return walk.skip("label view not an automaton before the call")
             if call.exc is not None:
                 return walk.skip("raised %s" % type(call.exc).__name__)
-            w = word_of(call)
+            w = word_of(call, "initial_%s_subword" % which)
             if w is None or not all_str(w):
                 return walk.skip("word is not a sequence of string labels")
             if len(M.starts) != 1 or M.starts[0] not in M.vertices:
@@ -292,9 +315,13 @@ def setup(run):
                 return
             if M is None:
                 return enum.skip("label view not an automaton before the call")
-            b = call.bound()
+            b = args_of(call, op)
             length = b.get("length", b.get("max_length"))
             s = b.get("start_vertex")
+            if _ctx.get("op_depth", 0) > 0:
+                if _ctx.get("enum_budget", 0) <= 0:
+                    return enum.skip("internal enumeration beyond the per-operation budget")
+                _ctx["enum_budget"] -= 1
             if not isinstance(length, int) or length < 0:
                 return enum.skip("negative or non-integer length")
             if s is None and len(M.starts) != 1:
@@ -333,6 +360,14 @@ def setup(run):
         F = call.args[0]
         M, prob = fl.snapshot(F)
         return M, prob, fl.flat_views(F)
+
+    def pre_multiple(call):
+        # the operation enumerates k-paths from every vertex it visits (often
+        # many times): only the first few of these internal enumerations are judged
+        _ctx["op_depth"] = _ctx.get("op_depth", 0) + 1
+        if _ctx["op_depth"] == 1:
+            _ctx["enum_budget"] = 8
+        return pre_op(call)
 
     def self_watch(call, flat, op):
         d = fl.views_diff(flat, fl.flat_views(call.args[0]))
@@ -379,6 +414,9 @@ def setup(run):
 
     def hook_multiple(opname):
         def hook(call, state):
+            _ctx["op_depth"] = max(0, _ctx.get("op_depth", 1) - 1)
+            if state is None:
+                return
             M, prob, flat = state
             if call.exc is not None:
                 return
@@ -424,8 +462,8 @@ def setup(run):
             self_watch(call, flat, opname)
         return hook
 
-    attach.wrap_attr(run, FSA, "automaton_multiple", hook_multiple("automaton_multiple"), pre=pre_op)
-    attach.wrap_attr(run, FSA, "even_automaton", hook_multiple("even_automaton"), pre=pre_op)
+    attach.wrap_attr(run, FSA, "automaton_multiple", hook_multiple("automaton_multiple"), pre=pre_multiple)
+    attach.wrap_attr(run, FSA, "even_automaton", hook_multiple("even_automaton"), pre=pre_multiple)
 
     def hook_rename(call, state):
         M, prob, flat = state
@@ -730,8 +768,11 @@ def operations(run, rng, F, M, labels, ks=(1, 2, 3, 4), roots="all", depth=0,
     s = M.starts[0]
     base = route()
     nstates, nlab = len(M.vertices), len({l for (_v, l) in M.delta})
-    # --- multiples
+    # --- multiples (the library's product construction revisits vertices once
+    # per incoming block: keep alphabet**k small)
     for k in ks:
+        if k > 1 and max(1, nlab) ** k > 81:
+            continue
         G = lib(run, "multiple", "automaton_multiple", lambda: F.automaton_multiple(k))
         check(run, v0)
         run.note_class("multiple", base, nstates, nlab, k)
